@@ -1,3 +1,4 @@
+import GramModel.Lemmas.CliTie
 import GramModel.Generated.Sites
 import GramModel.Props.C09
 import GramModel.Props.C12
@@ -290,3 +291,13 @@ def C14_infer_one_live_site_stmt : Prop :=
     site = "normalize_weak_head.definitions_context[index]"
 theorem C14_infer_one_live_site : C14_infer_one_live_site_stmt :=
   fun fuel t σ site hw h => CheckNoPanic.inferS_wellScoped_site fuel t σ site hw h
+
+/-! ## Where `main.rs` writes (regenerated on every run) -/
+
+/-- `main.rs`, read off the source by `extract/arms.py` on every run: `run` writes to standard output only, never exits, and writes nothing
+before `tokenize`, `parse` and `type_check` have each been called and their error propagated with `?` — a rejected program produces no
+standard output; the value is written after `evaluate` and its `?`; `entry` writes nothing; `main` writes to standard error only, every such
+write is followed at once by `exit(1)`, and there is no other exit code.  This is the source-level half of the CLI contract that
+`C14_cli_contract` states for the model and the CLI suite observes on the binary. -/
+def C14_cli_streams_tie_stmt : Prop := cliOK Generated.cliEvents = true
+theorem C14_cli_streams_tie : C14_cli_streams_tie_stmt := by unfold C14_cli_streams_tie_stmt; decide +kernel
